@@ -361,9 +361,12 @@ func (x *router) dispatchToRoutees(ctx *ReceiveContext, msg any, routees []*PID)
 func (x *router) routeByStrategy(ctx *ReceiveContext, msg any, routees []*PID) {
 	switch x.routingStrategy {
 	case RoundRobinRouting:
-		n := atomic.AddUint32(&x.roundRobinNext, 1)
-		routee := routees[(int(n)-1)%len(routees)]
-		ctx.Tell(routee, msg)
+		// routees is rebuilt from a map for every message: give it a fixed order,
+		// and keep the cursor inside [0, len) so that it never wraps.
+		sort.Slice(routees, func(i, j int) bool { return routees[i].ID() < routees[j].ID() })
+		idx := atomic.LoadUint32(&x.roundRobinNext) % uint32(len(routees))
+		atomic.StoreUint32(&x.roundRobinNext, (idx+1)%uint32(len(routees)))
+		ctx.Tell(routees[idx], msg)
 	case RandomRouting:
 		routee := routees[rand.IntN(len(routees))] //nolint:gosec
 		ctx.Tell(routee, msg)
